@@ -50,7 +50,7 @@ PROPS = {
         "thorough": {"workers": 16, "cases": 20000, "size": 36},
         "min_nontrivial_frac": 0.2,
         "rule": GEN_TA + "downward simulation on arbitrary automata, upward simulation on reference-trimmed automata, states renumbered 0..n-1 through a generated permutation, "
-                "n passed as NumStates; every pair (q,r) compared with the naive greatest fixpoint of the definition. Non-trivial: the reference relation is neither the identity "
+                "n passed as NumStates; every pair (q,r) compared with the naive greatest fixpoint of the definition; 1/24 of the cases are large (20-150 states, a backbone of unary/binary rules through all states plus the generated rules). Non-trivial: the reference relation is neither the identity "
                 "nor total. Distinct: hash of the case text.",
         "assumptions": COMMON_ASSUMPTIONS + ["upward simulation is only requested for trimmed automata (stated precondition); the empty automaton is exercised with NumStates = 0 only"],
     },
@@ -135,10 +135,10 @@ PROPS = {
     },
     "C08": {
         "harness": "c08",
-        "quick": {"workers": 8, "cases": 2500, "size": 30, "min_records": 12},
-        "thorough": {"workers": 16, "cases": 30000, "size": 44, "min_records": 12},
+        "quick": {"workers": 8, "cases": 1200, "size": 30, "min_records": 12},
+        "thorough": {"workers": 16, "cases": 12000, "size": 44, "min_records": 12},
         "min_nontrivial_frac": 0.3,
-        "rule": "histories of 4-24 steps over pools of <= 6 handles per BDD encoding built from three generated automata (<= 4-5 states): load into a fresh handle (dump must denote the generated language), "
+        "rule": "histories of 4-24 steps over pools of <= 6 handles per BDD encoding built from three generated automata (<= 4-5 states; the first two are a related pair built by the split/superset/ablate strategies so that their product is rich; every history starts with their plain products in both operand orders and both encodings): load into a fresh handle (dump must denote the generated language), "
                 "copy-construct, copy-assign, Union (with/without maps), UnionDisjointStates (only when the two dumps taken before the call have disjoint state sets), Intersection, RemoveUnreachableStates, "
                 "RemoveUselessStates (no useless state may remain in the dump), GetTopDownAut, drop; after a copy/union/trim the next binary step is biased towards the handles sharing a table. Every expectation is formed from the "
                 "operand dumps taken immediately before the call; operands are re-dumped after the call. Non-trivial: some binary operation had an operand that shares its transition table with another live handle. "
@@ -176,7 +176,7 @@ PROPS = {
         "min_nontrivial_frac": 0.2,
         "rule": "labelled transition systems with 1-8 (thorough 14) states, 1-4 labels, generated edges (states without in/out edges, several labels between the same states; exact duplicates of an edge kept in 1/8 of the cases), "
                 "initial partition = single block (computeSimulation(size) / computeSimulation()) or a generated partition into non-empty blocks with a generated preorder on blocks (reflexive transitive closure of "
-                "generated pairs), requested output size n or 1..n; the result size and every entry (q,r) below the output size are compared with the naive greatest simulation inside {(q,r) | block(q) <= block(r)}. "
+                "generated pairs), requested output size n or 1..n; 1/24 of the cases are large (65-220 states, chain or binary-tree backbone plus generated edges); the result size and every entry (q,r) below the output size are compared with the naive greatest simulation inside {(q,r) | block(q) <= block(r)}. "
                 "Non-trivial: the reference relation is strictly between identity and total and at least one pair had to be removed. Distinct: hash of the case text.",
         "assumptions": COMMON_ASSUMPTIONS + ["the partition covers exactly 0..n-1 with non-empty blocks, the block relation is a preorder of matching size, init() is called, n >= 1 (the engine's preconditions)"],
     },
